@@ -206,6 +206,9 @@ def opt_specs(draw):
         'fi': draw(st.sampled_from([True, True, False])),
         # layers that are not (only) backed by a cache: lyr_d = WMS source directly, lyr_m = cache c_a + direct source
         'direct': draw(st.sampled_from([None, 'd', 'dm', 'dm', 'dm'])),
+        # c_x = cache with two grids (g1 + g2 in another SRS) under lyr_x; cascades add c_y (grid g1) under lyr_y whose
+        # source is the single-grid cache c_b or the two-grid cache c_x
+        'multi': draw(st.sampled_from([None, 'cascade-single', 'cascade-multi', 'two-grids', None, 'cascade-multi', 'cascade-single'])),
     }
 
 
@@ -299,6 +302,15 @@ def make_probes(seed, opts):
         probes.append({'kind': 'wms-tiles', 'layer': rnd.choice(['a', 'b', 'a', 'b', 'ab']), 'rel': rel,
                        'lvl': rnd.choice(['last', 'last', 'mid', 'first']), 'col': rnd.choice(VAL_COL), 'row': rnd.choice(VAL_COL),
                        'wide': rnd.random() < 0.5})
+    multi = opts.get('multi')
+    if multi:
+        extra = [('x', 'g1', r) for r in ('below', 'at', 'above', 'above2', 'far')] + [('x', 'g2', r) for r in ('below', 'above', 'far')]
+        if multi.startswith('cascade'):
+            extra += [('y', 'g1', r) for r in ('below', 'above', 'above2')]
+        for layer, grid, rel in extra:
+            probes.append({'kind': 'wms-tiles', 'layer': layer, 'grid': grid, 'rel': rel,
+                           'lvl': rnd.choice(['last', 'last', 'mid']), 'col': rnd.choice(VAL_COL) if grid == 'g1' else 'mid',
+                           'row': rnd.choice(VAL_COL) if grid == 'g1' else 'mid', 'wide': rnd.random() < 0.5})
     for where in ('east', 'west', 'north', 'south', 'corner', 'beyond', 'far'):
         probes.append({'kind': 'wms-edge', 'layer': rnd.choice(['a', 'b']), 'where': where,
                        'lvl': rnd.choice(['last', 'mid', 'first'])})
@@ -361,6 +373,32 @@ def max_pixels(opts, facts):
     return int(opts['max_px'][0] * tw), int(opts['max_px'][1] * th)
 
 
+def second_grid(g, facts):
+    """A grid in another SRS over (the envelope of) the area of the configured grid."""
+    import numpy as np
+    from mapproxy.grid import tile_grid
+    c = grid_conf(g)
+    if 'base' in c:
+        base = {'GLOBAL_MERCATOR': dict(srs='EPSG:900913', origin='ll'), 'GLOBAL_WEBMERCATOR': dict(srs='EPSG:3857', origin='ul'),
+                'GLOBAL_GEODETIC': dict(srs='EPSG:4326', origin='ll')}[c['base']]
+        b = tuple(tile_grid(**base).bbox)
+    else:
+        b = tuple(c['bbox'])
+    src = facts['srs']
+    dst = 'EPSG:3857' if src == 'EPSG:4326' else 'EPSG:4326'
+    if src == 'EPSG:4326':
+        b = (b[0], max(b[1], -80.0), b[2], min(b[3], 80.0))
+    t = np.linspace(0.0, 1.0, 11)
+    xs = np.concatenate([b[0] + t * (b[2] - b[0]), b[0] + t * (b[2] - b[0]), np.full(11, b[0]), np.full(11, b[2])])
+    ys = np.concatenate([np.full(11, b[1]), np.full(11, b[3]), b[1] + t * (b[3] - b[1]), b[1] + t * (b[3] - b[1])])
+    X, Y = ground.transform(xs, ys, src, dst)
+    ok = np.isfinite(X) & np.isfinite(Y)
+    X, Y = X[ok], Y[ok]
+    digits = 6 if dst == 'EPSG:4326' else 1
+    bbox = [round(float(X.min()), digits), round(float(Y.min()), digits), round(float(X.max()), digits), round(float(Y.max()), digits)]
+    return {'srs': dst, 'bbox': bbox, 'tile_size': [64, 64], 'num_levels': 5, 'origin': 'll'}
+
+
 def build_conf(case, facts, base_dir):
     o = case['opts']
     cache_root = os.path.join(base_dir, 'cache_data')
@@ -402,18 +440,34 @@ def build_conf(case, facts, base_dir):
                'src_t': {'type': 'tile', 'grid': 'g1', 'url': 'http://tiles.test/%(tms_path)s.%(format)s'}}
     if direct:
         sources['src_d'] = {'type': 'wms', 'req': {'url': 'http://wmsd.test/service?', 'layers': 'd', 'transparent': True}}
+    grids = {'g1': grid_conf(case['grid'])}
+    extra_caches = {}
+    srs_list = set([facts['srs'], 'EPSG:4326'])
+    if o.get('multi'):
+        g2 = second_grid(case['grid'], facts)
+        grids['g2'] = g2
+        srs_list.add(g2['srs'])
+        extra_caches['c_x'] = {'grids': ['g1', 'g2'], 'sources': ['src_w'], 'format': 'image/png', 'meta_size': [2, 2],
+                               'meta_buffer': 0, 'cache': {'type': 'file', 'directory_layout': 'tc'}}
+        layers.append({'name': 'lyr_x', 'title': 'Two grids', 'sources': ['c_x']})
+        if o['multi'].startswith('cascade'):
+            extra_caches['c_y'] = {'grids': ['g1'], 'sources': ['c_x' if o['multi'] == 'cascade-multi' else 'c_b'],
+                                   'format': 'image/png', 'meta_size': [1, 1], 'meta_buffer': 0,
+                                   'cache': {'type': 'file', 'directory_layout': 'tc', 'directory': os.path.join(cache_root, 'fy')}}
+            layers.append({'name': 'lyr_y', 'title': 'Cache of cache', 'sources': ['c_y']})
     return {
         'services': {'tms': tms, 'kml': {'use_grid_names': bool(o['grid_names'])}, 'wmts': wmts,
-                     'wms': {'srs': sorted(set([facts['srs'], 'EPSG:4326'])),
+                     'wms': {'srs': sorted(srs_list),
                              'max_output_pixels': [wm, hm]}},
         'layers': layers,
         'caches': {
             'c_a': cache('c_a', o['a_source'], o['a_fmt'],
                          {'type': 'file', 'directory_layout': o['layout'], 'directory': os.path.join(cache_root, 'fa')}),
             'c_b': cache('c_b', o['b_source'], o['b_fmt'], b_backend),
+            **extra_caches
         },
         'sources': sources,
-        'grids': {'g1': grid_conf(case['grid'])},
+        'grids': grids,
         'globals': {'cache': {'max_tile_limit': int(o['max_tile_limit'])}},
     }
 
@@ -653,7 +707,7 @@ class ConfigRun(object):
         c += ['a:file-%s/%s/%s' % (o['layout'], o['a_source'], o['a_fmt']),
               'b:%s/%s/%s' % (o['b_backend'] if o['b_backend'] != 'file' else 'file-' + o['b_layout'], o['b_source'], o['b_fmt']),
               'dims:%s' % ('+'.join(o['dims']) if o.get('dims') else 'none'),
-              'uncached-layers:%s' % (o.get('direct') or 'none')]
+              'uncached-layers:%s' % (o.get('direct') or 'none'), 'multi-grid:%s' % (o.get('multi') or 'none')]
         return c
 
     def run(self):
@@ -713,14 +767,16 @@ class ConfigRun(object):
         """RefGrid of the loaded grid g1 (harness plumbing: used for the synthetic tile server, the in-grid verdict on
         stored tiles / upstream URLs and to construct GetMap requests)."""
         handler = app.handlers.get('tms')
-        grid = None
+        self.refs = {}
         for lyr in handler.layers.values():
             grid = lyr.tile_manager.grid
-            break
-        if grid is None:
-            raise core.HarnessError('no tile layer loaded')
-        self.ref = RefGrid.from_grid(grid)
+            if grid.name not in self.refs:
+                self.refs[grid.name] = (RefGrid.from_grid(grid), grid.srs.srs_code)
+        if 'g1' not in self.refs:
+            raise core.HarnessError('no tile layer on grid g1 loaded')
+        self.ref = self.refs['g1'][0]
         self.n_levels = len(self.ref.res)
+        self.cur_srs = self.facts['srs']
 
     def _load_documents(self):
         f = self.fetch
@@ -805,6 +861,7 @@ class ConfigRun(object):
 
     def stored_entry_problem(self, e):
         o = self.opts
+        ref = self.refs['g1'][0]
         if e[0] == 'r':
             if len(e) < 5:
                 return None     # marker of a database without tiles table
@@ -823,6 +880,14 @@ class ConfigRun(object):
             layout, dims = o['layout'], (o.get('dims') or [])
         elif top == 'fb':
             layout, dims = o['b_layout'], []
+        elif top == 'fy':
+            layout, dims = 'tc', []
+        elif top.startswith('c_x_') and o.get('multi'):
+            layout, dims = 'tc', []
+            if top[4:] != self.facts['srs'].replace(':', ''):
+                ref = self.refs.get('g2', (None,))[0]
+                if ref is None:
+                    return 'file of a grid that is not configured'
         else:
             return 'unexpected file'
         parts = parts[1:]
@@ -837,13 +902,14 @@ class ConfigRun(object):
         addr = decode_file_path(parts, layout)
         if addr is None:
             return 'path does not decode to a tile address in layout %s' % layout
-        return self._addr_problem(*addr)
+        return self._addr_problem(*addr, ref=ref)
 
-    def _addr_problem(self, x, y, z):
-        if not isinstance(z, int) or not (0 <= z < self.n_levels):
-            return 'level %r outside 0..%d' % (z, self.n_levels - 1)
-        if not self.ref.in_grid(x, y, z):
-            return 'tile (%r, %r) of level %d outside the grid of %r tiles' % (x, y, z, self.ref.grid_sizes[z])
+    def _addr_problem(self, x, y, z, ref=None):
+        ref = ref or self.refs['g1'][0]
+        if not isinstance(z, int) or not (0 <= z < len(ref.res)):
+            return 'level %r outside 0..%d' % (z, len(ref.res) - 1)
+        if not ref.in_grid(x, y, z):
+            return 'tile (%r, %r) of level %d outside the grid of %r tiles' % (x, y, z, ref.grid_sizes[z])
         return None
 
     # -- probes ---------------------------------------------------------------------------------------------
@@ -1079,11 +1145,12 @@ class ConfigRun(object):
 
     # -- WMS ---------------------------------------------------------------------------------------------------
     def _layers(self, p):
-        return {'a': 'lyr_a', 'b': 'lyr_b', 'ab': 'lyr_a,lyr_b', 'd': 'lyr_d', 'm': 'lyr_m', 'ad': 'lyr_a,lyr_d'}[p['layer']]
+        return {'a': 'lyr_a', 'b': 'lyr_b', 'ab': 'lyr_a,lyr_b', 'd': 'lyr_d', 'm': 'lyr_m', 'ad': 'lyr_a,lyr_d',
+                'x': 'lyr_x', 'y': 'lyr_y'}[p['layer']]
 
     def _getmap(self, layers, bbox, size, fmt='image/png', extras=None):
         params = [('SERVICE', 'WMS'), ('VERSION', '1.1.1'), ('REQUEST', 'GetMap'), ('LAYERS', layers), ('STYLES', ''),
-                  ('SRS', self.facts['srs']), ('BBOX', ','.join(repr(float(v)) for v in bbox)),
+                  ('SRS', self.cur_srs), ('BBOX', ','.join(repr(float(v)) for v in bbox)),
                   ('WIDTH', str(size[0])), ('HEIGHT', str(size[1])), ('FORMAT', fmt)]
         query = '&'.join('%s=%s' % (k, quote(v, safe='/:,')) for k, v in params)
         return '/service', query + ('&' + extras if extras else '')
@@ -1166,6 +1233,19 @@ class ConfigRun(object):
                     what='pixels-over-limit' + ('+tiled' if tiled else ('+extras' if extras else '')))
 
     def _wms_tiles(self, p):
+        gname = p.get('grid', 'g1')
+        multi = self.opts.get('multi') or ''
+        if (p['layer'] == 'x' and not multi) or (p['layer'] == 'y' and not multi.startswith('cascade')) or gname not in self.refs:
+            return      # (hand-edited case)
+        saved = (self.ref, self.n_levels, self.cur_srs)
+        self.ref, self.cur_srs = self.refs[gname]
+        self.n_levels = len(self.ref.res)
+        try:
+            self._wms_tiles_on_grid(p, gname)
+        finally:
+            self.ref, self.n_levels, self.cur_srs = saved
+
+    def _wms_tiles_on_grid(self, p, gname):
         N = int(self.opts['max_tile_limit'])
         wm, hm = max_pixels(self.opts, self.facts)
         P = wm * hm
@@ -1215,10 +1295,16 @@ class ConfigRun(object):
             return
         req = self._getmap(self._layers(p), rect, (w0, h0))
         expect = 'serve' if T < N else ('refuse' if T > N else 'refuse-or-any')
+        if expect == 'serve' and p['layer'] == 'y' and self.opts.get('multi') == 'cascade-multi':
+            # the lower two-grid cache applies its own tile limit to the (meta) tile requests of the upper cache
+            expect = 'global-only'
         near = abs(T - N) <= max(1, 0.05 * N)
         self._judge(p, req, expect, ['svc:wms', 'layer:' + p['layer'], 'expect:' + expect, 'probe:tiles-' + rel,
+                                     'tiles-on:%s/%s' % ({'x': 'two-grid-cache', 'y': 'cache-of-' + (self.opts.get('multi') or '')[8:] + '-cache'}
+                                                         .get(p['layer'], 'single-grid-cache'), gname),
                                      'tiles-T-minus-limit:%+d' % max(-3, min(3, T - N))],
-                    nontrivial=near, svc='wms', what='tiles-over-limit')
+                    nontrivial=near, svc='wms',
+                    what='tiles-over-limit' + {'x': '@two-grid-cache', 'y': '@cache-of-cache'}.get(p['layer'], ''))
 
     def _wms_edge(self, p):
         """bbox across / beyond the grid edge: any answer, but nothing outside the grid may be fetched or stored"""
@@ -1246,9 +1332,11 @@ class ConfigRun(object):
 
 def run_case(case, stats, exclude_known=True):
     import logging
+    import numpy as np
     logging.disable(logging.CRITICAL)
     try:
-        return ConfigRun(case, stats, exclude_known=exclude_known).run()
+        with np.errstate(all='ignore'):     # the synthetic upstream renders outside the area of validity of an SRS now and then
+            return ConfigRun(case, stats, exclude_known=exclude_known).run()
     finally:
         logging.disable(logging.NOTSET)
 
